@@ -14,8 +14,10 @@ type Query { q: Int }
 interface I { a: Int  b: Int!  x(arg: Int = 0): Int }
 type T1 implements I { a: Int  b: Int!  x(arg: Int = 1): Int }
 type T2 implements I { a: Int  b: Int!  x(arg: Int = 2): Int }
-type Subscription { ev: I  other: Int  nores: Int }
+type Subscription { ev: I  other: Int  nores: Int  q: Int }
 """
+# gamma for the refusal of non-subscription operations: ONE object type is both the query root and the subscription root
+SDL_SHARED_ROOT = SDL.replace("type Query { q: Int }", "schema { query: Subscription  subscription: Subscription }")
 QUERIES = {
     "ok-sync": "subscription { ev { a b x } }",
     "ok-async": "subscription { ev { a b x } }",
@@ -49,7 +51,11 @@ class Source:
         self.calls += 1
         self.next += 1
         k = self.next
-        await self.gate(k)
+        try:
+            await asyncio.shield(self.gate(k))      # (the gate itself survives a cancelled reader)
+        except asyncio.CancelledError:
+            self.next -= 1          # a cancelled read consumes nothing: the next read waits for the same item
+            raise
         if k > len(self.events):
             raise StopAsyncIteration()
         return {"k": k, "e": self.events[k - 1]}
@@ -73,8 +79,14 @@ def run(beh, variant=0):
         rkey = "other" if variant % 3 == 1 else "al"
     loop = asyncio.new_event_loop()
     try:
-        schema = build_schema(SDL)
+        shared_root = setup == "not-subscription" and variant % 2 == 1
+        schema = build_schema(SDL_SHARED_ROOT if shared_root else SDL)
         src = Source(loop, beh["evs"])
+        # gamma: the single root field written twice with different sub-selections (directly / through a fragment): they merge
+        split = setup in ("ok-sync", "ok-async") and variant % 4 == 3
+        # gamma: the consumer gives up a pull that found nothing (keep-alive time-out of a websocket server) and pulls again
+        repull = setup in ("ok-sync", "ok-async") and variant % 5 == 4
+        cancelled_pulls = 0
         fgates = {}
         sub_calls = []
 
@@ -128,7 +140,12 @@ def run(beh, variant=0):
             ty.field_map["b"].resolver = res_b
             ty.field_map["x"].resolver = res_x
         rt = BlockingRuntime() if setup == "no-stream-runtime" else AsyncIORuntime(loop=loop, execute_blocking_functions_in_thread=False)
-        doc = parse(QUERIES[qname] if rkey == "ev" else QUERIES[qname].replace("{ ev {", "{ %s: ev {" % rkey))
+        text = QUERIES[qname]
+        if split:
+            text = ("subscription { ev { a } ev { b x } }" if variant % 8 == 3 else "subscription { ev { a } ...R }  fragment R on Subscription { ev { b x } }")
+        if rkey != "ev":
+            text = text.replace("{ ev {", "{ %s: ev {" % rkey).replace("} ev {", "} %s: ev {" % rkey)
+        doc = parse(text)
         stream = None
         tasks = {}
         div = []
@@ -148,7 +165,7 @@ def run(beh, variant=0):
                         stream = aw
                     want = ["other", "other"] if setup == "multi-root" else [] if setup not in ("ok-sync", "ok-async", "multi-root") else ["async" if setup == "ok-async" else "sync"]
                     if act == "subscribed" and sub_calls != want:
-                        div.append(("sub/wrong-subscription-resolver/%s" % ("alias" if rkey != "ev" else "plain"), {"called": list(sub_calls), "expected": want, "query": QUERIES[qname], "root_key": rkey}))
+                        div.append(("sub/wrong-subscription-resolver/%s" % ("alias" if rkey != "ev" else "plain"), {"called": list(sub_calls), "expected": want, "query": text, "root_key": rkey}))
                     if act == "refused":
                         # a lazily refusing implementation must at least not consume: probe one pull
                         return [("sub/not-refused/%s" % qname, {"source_calls": src.calls})]
@@ -173,8 +190,15 @@ def run(beh, variant=0):
                 npull += 1
                 tasks[npull] = loop.create_task(type(stream).__anext__(stream))
                 settle()
-                if src.calls != npull:
-                    return div + [("sub/source-calls-after-pull", {"expected": npull, "got": src.calls})]
+                if repull and not tasks[npull].done() and not src.gate(src.next).done() and not any(kk >= npull for (kk, _f) in fgates):
+                    # the pull is waiting for the SOURCE (nothing has been produced for it yet)
+                    tasks[npull].cancel()
+                    settle()
+                    cancelled_pulls += 1
+                    tasks[npull] = loop.create_task(type(stream).__anext__(stream))
+                    settle()
+                if src.calls != npull + cancelled_pulls:
+                    return div + [("sub/source-calls-after-pull%s" % ("/after-cancelled-pull" if cancelled_pulls else ""), {"expected": npull + cancelled_pulls, "got": src.calls})]
             elif act == "deliver":
                 settle()
                 pend = sorted(ff for (kk, ff), g in fgates.items() if kk == k and not g.done())
